@@ -85,11 +85,9 @@ def remoteFlowControlWindow (sid : Int) : CM Int := do
   | some st => pure (min c.inWM.current_window_size st.inWM.current_window_size)
   | none => raise (.py .KeyError)
 
-def sendData (sid : Int) (data : Bytes) (endStream : Bool) (pad : Option Int) : CM Unit := do
-  let frameSize : Int := data.length
-  let frameSize ← match pad with
-    | none => pure frameSize
-    | some p => if p < 0 || p > 255 then raise (.py .ValueError) else pure (frameSize + p + 1)
+/-- `send_data` after the padding check: `frameSize` is the flow-controlled length. -/
+def sendDataCore (sid : Int) (data : Bytes) (endStream : Bool) (pad : Option Int)
+    (frameSize : Int) : CM Unit := do
   let w ← localFlowControlWindow sid
   let c ← getS
   if frameSize > w then raise (mkExc .FlowControlError)
@@ -100,6 +98,13 @@ def sendData (sid : Int) (data : Bytes) (endStream : Bool) (pad : Option Int) : 
   modifyS fun c => { c with outWin := c.outWin - frameSize }
   let c ← getS
   if c.outWin < 0 then raise (.py .AssertionError) else pure ()
+
+def sendData (sid : Int) (data : Bytes) (endStream : Bool) (pad : Option Int) : CM Unit :=
+  match pad with
+  | none => sendDataCore sid data endStream none data.length
+  | some p =>
+    if p < 0 || p > 255 then raise (.py .ValueError)
+    else sendDataCore sid data endStream (some p) (data.length + p + 1)
 
 def endStream (sid : Int) : CM Unit := do
   connInput .SEND_DATA
@@ -211,13 +216,9 @@ def prioritize (sid : Int) (w d : Option Int) (e : Option Bool) : CM Unit := do
   let p ← liftExcept (framePriority sid w d e)
   prepareForSending [Frame.priority sid p]
 
-def acknowledgeReceivedData (size sid : Int) : CM Unit := do
-  if sid ≤ 0 then raise (.py .ValueError) else
-  if size < 0 then raise (.py .ValueError) else
-  let c ← getS
-  if c.cstate == .CLOSED then pure () else
-  let present ← tryCatch (do getStreamById sid; pure true)
-    (fun e => e.isInstance .StreamClosedError) (fun _ => pure false)
+/-- the second half of `acknowledge_received_data`: credit the connection window, then the stream's (if it is
+    still known and open), and write the WINDOW_UPDATE frames that result -/
+def ackCredit (present : Bool) (size sid : Int) : CM Unit := do
   let incr ← onConnWM (·.process_bytes size)
   let frames := match incr with
     | some n => if n != 0 then [Frame.windowUpdate 0 n] else []
@@ -229,6 +230,15 @@ def acknowledgeReceivedData (size sid : Int) : CM Unit := do
       | none => pure []
     else pure []
   prepareForSending (frames ++ more)
+
+def acknowledgeReceivedData (size sid : Int) : CM Unit := do
+  if sid ≤ 0 then raise (.py .ValueError) else
+  if size < 0 then raise (.py .ValueError) else
+  let present ← tryCatch (do getStreamById sid; pure true)
+    (fun e => e.isInstance .StreamClosedError) (fun _ => pure false)
+  let c ← getS
+  if c.cstate == .CLOSED then pure () else
+  ackCredit present size sid
 
 /-- `data_to_send(amount)` with Python slice semantics for any int amount -/
 def dataToSend (amount : Option Int) : CM Bytes := do
